@@ -44,12 +44,13 @@ def main():
         rc, o, e = sh([PY, "-m", "pytest", "-q", "-p", "no:cacheprovider"], cwd=wt, env=env)
         out["suite_with_patch"] = o.strip().splitlines()[-1] if o.strip() else e[-200:]
         out["suite_passes"] = "111 passed" in o
-        shutil.copy(demo, os.path.join(wt, "_demo.py"))
-        rc, o, e = sh([PY, "_demo.py"], cwd=wt, env=env, timeout=600)
+        os.makedirs(os.path.join(wt, "_seed"), exist_ok=True)
+        shutil.copy(demo, os.path.join(wt, "_seed", "demo.py"))   # demos locate the library relative to their own directory
+        rc, o, e = sh([PY, "_seed/demo.py"], cwd=wt, env=env, timeout=600)
         out["demo_with_patch_exit"] = rc
         out["demo_with_patch_output"] = (o + e)[-500:]
         sh(["git", "checkout", "--", "explorerscript"], cwd=wt)
-        rc, o, e = sh([PY, "_demo.py"], cwd=wt, env=env, timeout=600)
+        rc, o, e = sh([PY, "_seed/demo.py"], cwd=wt, env=env, timeout=600)
         out["demo_without_patch_exit"] = rc
         if rc != 0:
             out["demo_without_patch_output"] = (o + e)[-500:]
